@@ -14,6 +14,8 @@
     rng <seed> <n>                             -> <24-bit numerators,>
     hist <fix> <t> <k> <p> <mp> <seed> <ncalls> {F*}^ncalls E
          -> <result of call 1>;<result of call 2>;...   (requested parameters; generator threaded by the model)
+    ghist <fix> <t> <k> <p> <mp> <seed> <ncalls> {F* <nacc> <id>*}^ncalls E
+         -> <result d=<numbers drawn>>;...   (grammar path; accepted id sets probed from the real grammar)
     sample <fix> <pre> <t> <k> <p> <mp> <r> <n> {<id> <bits>}* E
          -> ok <id> kt=.. kp=.. km=.. c=.. | err:<class> ... | panic:<site> ...
 -/
@@ -211,6 +213,24 @@ def handle (toks' : List String) : Option String :=
       pure (joinWith ";" (rs.map fun r => match r with
         | .ok id => s!"ok {id}"
         | .error e => showErr e))) rest
+  | "ghist" :: rest =>
+    runTP (do
+      let fix ← nat
+      let t ← pF
+      let k ← int
+      let p ← pF
+      let mp ← pF
+      let seed ← int
+      let nc ← nat
+      let calls ← rep nc (do let l ← listOf pF; let a ← listOf nat; pure (l, a))
+      let tbl ← pExp
+      let o := f32Ops tbl
+      let P := newParams o t k p mp
+      let toF : Nat → Float32 := fun n => Float32.ofNat n / Float32.ofNat 16777216
+      let rs := sampleHistG o toF (fix != 0) P (pcgOfSeed seed) calls
+      pure (joinWith ";" (rs.map fun (r, d) => match r with
+        | .ok id => s!"ok {id} d={d}"
+        | .error e => showErr e ++ s!" d={d}"))) rest
   | "sample" :: rest =>
     runTP (do
       let fix ← nat
